@@ -1,8 +1,10 @@
 // C12: writing a view and reading it back reproduces it (BMP, binary PNM, TARGA through FILE* / file name).
 // Compile-time shape: FORMAT (1 bmp, 2 pnm, 3 targa), PIX (pixel type the format supports), ORG (1 interleaved, 2 planar,
-// 3 sub-view of a larger interleaved image, 4 x-stepped view (every second pixel), 5 y-flipped view), DEV (1 FILE*, 2 file name).
+// 3 sub-view of a larger interleaved image, 4 x-stepped view (every second pixel), 5 y-flipped view), DEV (1 FILE*, 2 file name, 3 std::ostream for writing / std::istream for reading back).
 // Run-time-constant shape: vp_param(0,1) = width, height (>= 1).  Symbolic: every pixel, the probed coordinate.
 #include "../io/io.hpp"
+#include <istream>
+#include <ostream>
 #if FORMAT == 1
 #include <boost/gil/extension/io/bmp.hpp>
 using tag_t = gil::bmp_tag;
@@ -21,6 +23,9 @@ template <class View> static void round_trip(View const& v, int W, int H) {
 #if DEV == 1
     FILE* fw = (FILE*)vp_fopen_write();
     gil::write_view(fw, v, tag_t());
+#elif DEV == 3
+    { std::ostream& out = *static_cast<std::ostream*>(vp_ostream()); gil::write_view(out, v, tag_t()); }
+    vp_ostream_done();
 #else
     vp_file_set_len(0);
     const char* nm = vp_file_name();
@@ -31,6 +36,8 @@ template <class View> static void round_trip(View const& v, int W, int H) {
 #if DEV == 1
     FILE* fr = (FILE*)vp_fopen_read();
     gil::read_image(fr, back, tag_t());
+#elif DEV == 3
+    { std::istream& in = *static_cast<std::istream*>(vp_istream()); gil::read_image(in, back, tag_t()); }
 #else
     gil::read_image(nm, back, tag_t());
 #endif
